@@ -437,16 +437,6 @@ theorem response_roundtrip_bodiless_declared (dn : Bool) (maxBody : Nat) (e : En
 
 /-! ### (2) answers to HEAD -/
 
-/-- `ReadHeaderAndLimitBody` on a `Response` whose `SkipBody` flag is set (the client sets it for a HEAD
-request): `ReadRespBody` returns at once when `resp.MustSkipBody()` (= `SkipBody ||
-MustSkipContentLength`).  With the flag off this is the model function `readResponse`. -/
-def readResponseSkip (skipBody : Bool) (dn : Bool) (maxBody : Nat) (e : End) (s : Bytes) : Except Err Result :=
-  match readHeaders dn e s with
-  | .error x => .error x
-  | .ok (hd, s1) =>
-    if skipBody then .ok { head := hd, body := [], trailers := hd.trailer.map (fun k => (k, ([] : Bytes))), rest := s1 }
-    else readBodyPart dn maxBody e hd s1
-
 theorem readResponseSkip_false (dn : Bool) (maxBody : Nat) (e : End) (s : Bytes) :
     readResponseSkip false dn maxBody e s = readResponse dn maxBody e s := by
   unfold readResponseSkip readResponse
